@@ -1,11 +1,20 @@
 /-
 C14p — panic-freedom of the exponential family: exp, exp2, exp_m1, powf (and the helpers `mul_pow2`,
-`expm1_128th`, `exp_half`, `expm1_quarter`), plus the table `exp2(k) = 2^k` on a documented set of integers.
+`expm1_128th`, `exp_half`, `expm1_quarter`), plus the table `exp2(k) = 2^k`.
 
 `exp` contains real assertions (`assert!(n.abs() <= 32)`, `assert!(self.hi().abs() <= 0.25)`, table indices,
 `panic!("exp_half max exponent is 1439")`).  They hold for every VALID argument: with `y = round(2x)` (exact by
 C08, `|y| ≤ 1418`) the reduced argument `z = x - y/2` has `|z.hi| ≤ 1/4` because `x.hi - y/2` is computed exactly
 and `z.hi = RN(x - y/2)`, `|x - y/2| ≤ 1/4`, and `1/4` is a double.  The proofs are in `TFV.Lemmas.PanicFree`.
+
+Contents
+* `exp_pf`, `exp_pf_inv`, `exp2_pf` (all arguments), `exp_m1_pf`, `powf_pf`, `exp_inv` — unconditional;
+* `expHalfRecipInv` — the closed fact `PF.ExpHalfRecipInv` (reciprocals `1.0 / exp_half(m)`, `1 ≤ m ≤ 1418`), from
+  the division theorem `C01d.recip_valid` and the product error bound `mul_tt_bound_7u2_partial` for `m ≤ 1400`
+  (integer conditions on the 1333 pairs of table entries checked by the kernel) and by kernel evaluation for
+  `1401 ≤ m ≤ 1418`;
+* `exp2_int_value` — `exp2(k) = 2^k` for EVERY integer `-1074 ≤ k ≤ 1022`, by proof (exact values);
+* `exp2_int` — the same bit for bit (sign of the zero low word included) on 20 sample exponents, by kernel evaluation.
 -/
 import TFV.Lemmas.PanicFree
 import TFV.Properties.C03x
@@ -296,14 +305,8 @@ example : TwoFloat.exp.pf ⟨f64lit 0x3ff0000000000000, f64lit 0x408f40000000000
 example : TwoFloat.exp.pf ⟨f64lit 0x408627ffffffffff, f64lit 0x0000000000000000⟩ = true
     ∧ TwoFloat.exp.pf ⟨f64lit 0xc08627ffffffffff, f64lit 0x0000000000000000⟩ = true := by decide +kernel
 
-/-- samples of `PF.ExpHalfRecipInv`: `1.0 / exp_half(m)` satisfies the invariant (kernel evaluation, ≈ 1.3 s per
-value; the compiled evaluator `#eval` confirms all 1439 values in a few seconds, which is evidence, not a proof).
-NB `1.0 / exp_half(1439)` is `(NaN, NaN)` — a marker, not a valid pair; `exp` itself only reaches `|m| ≤ 1418`. -/
-example :
-    [1, 31, 32, 33, 77, 1024, 1418, 1439].all (fun m : Int =>
-      decide (arithmetic.impl_Div_TwoFloat_for_f64.div (f64lit 0x3ff0000000000000)
-        (explog.exp_half.go 1 (⟨m⟩ : I32))).Inv) = true := by decide +kernel
-
+/-- NB outside the range reached by `exp`: `1.0 / exp_half(1439)` is `(NaN, NaN)` — `exp_half(-1439)` does not
+panic but returns NaN (`exp` only calls `exp_half(n)` with `|n| ≤ 1418`) -/
 example : (arithmetic.impl_Div_TwoFloat_for_f64.div (f64lit 0x3ff0000000000000)
     (explog.exp_half.go 1 (⟨1439⟩ : I32))).hi = F64.nan := by decide +kernel
 
